@@ -457,6 +457,11 @@ def run_case(idx, rng, P, rep):
                 else:
                     cls.sel = value
                 model_objs.append(x)
+                if model_names:
+                    # (objects declared with names: the new object joins the mapping as well - under its str(), the name it
+                    #  is listed under by get_range())
+                    model_names[str(x)] = x
+                    rep.count('auto_appended_to_named_objects')
                 proxy[0] = None
                 rep.count('auto_appended')
             elif op == 'assign_bad':
